@@ -212,6 +212,9 @@ class SymNum:
         return self
 
     def __abs__(self):
+        if ABS_FORKS[0]:
+            # sign-resolved absolute value: the path forks on the sign (keeps later queries free of if-then-else terms)
+            return self if Ctx.cur.decide(self.e >= 0) else SymNum(-self.e)
         return SymNum(z3.If(self.e >= 0, self.e, -self.e))
 
     def __pow__(self, o):
@@ -278,6 +281,9 @@ class SymNum:
 
     def __repr__(self):
         return f"Sym({self.e})"
+
+
+ABS_FORKS = [False]
 
 
 def concretize(x, what="index"):
